@@ -23,7 +23,7 @@ suite_tail = open("%s/%s.suite.out" % (src, name)).read().strip().splitlines()[-
 meta = {
     "id": name,
     "property": PROP,
-    "round": 2 if ID.endswith("r2") else 1,
+    "round": int(re.search(r"r(\d+)$", ID).group(1)) if re.search(r"r(\d+)$", ID) else 1,
     "breaks": open("/tmp/seed/%s.prop.txt" % ID).read().split("\n")[0],
     "needs_to_manifest": needs,
     "origin": "independent sub-agent given only the property text and a scratch worktree (nothing from /verif)",
